@@ -5,6 +5,8 @@ import (
 	"fmt"
 	"math"
 	"strings"
+
+	"google.golang.org/protobuf/reflect/protoreflect"
 	"unicode"
 	"unicode/utf8"
 
@@ -14,6 +16,7 @@ import (
 	"github.com/verily-src/fhirpath-go/fhirpath/system"
 	"github.com/verily-src/fhirpath-go/fhirpath/verifharness/core"
 	"github.com/verily-src/fhirpath-go/fhirpath/verifharness/fx"
+	"github.com/verily-src/fhirpath-go/fhirpath/verifharness/gen"
 	"github.com/verily-src/fhirpath-go/fhirpath/verifharness/model"
 )
 
@@ -61,6 +64,17 @@ func strCarrier(s, kind, name string) (string, fhirpath.EvaluateOption) {
 		return "%" + name, evalopts.EnvVariable(name, system.Collection{system.String(s)})
 	case "lit":
 		return model.QuoteStr(s), nil
+	case "litesc":
+		// the literal with every non-ASCII character of the basic plane written as a \uXXXX escape
+		var sb strings.Builder
+		for _, r := range model.QuoteStr(s) {
+			if r > 0x7e && r < 0xd800 || r >= 0xe000 && r <= 0xffff {
+				fmt.Fprintf(&sb, "\\u%04x", r)
+			} else {
+				sb.WriteRune(r)
+			}
+		}
+		return sb.String(), nil
 	case "fhir":
 		var v any
 		switch len(s) % 6 {
@@ -97,6 +111,8 @@ func c14Check(env *core.Env, fn, s, t, u string, i, j int64, carrier string) {
 	argT := "%t"
 	if carrier == "lit" {
 		argT = model.QuoteStr(t)
+	} else if carrier == "litesc" {
+		argT, _ = strCarrier(t, "litesc", "")
 	} else {
 		eo = append(eo, evalopts.EnvVariable("t", system.String(t)))
 	}
@@ -138,7 +154,7 @@ func c14Check(env *core.Env, fn, s, t, u string, i, j int64, carrier string) {
 		src = fmt.Sprintf("%s.contains(%s) = (%s.indexOf(%s) >= 0)", recv, argT, recv, argT)
 	}
 	var r fx.Res
-	if carrier == "lit" {
+	if carrier == "lit" || carrier == "litesc" {
 		r = fx.Eval(env, src, nil, nil, eo)
 	} else {
 		ex := c14Expr(env, src)
@@ -324,7 +340,69 @@ func c14Strings(env *core.Env) []string {
 	return out
 }
 
+// c14Codes: string functions on bound code elements of every value set, all in one process: the receiver is the
+// element's own FHIR code text, whichever other code elements (same message short name, same enum number) came before.
+func c14Codes(env *core.Env, reverse bool) {
+	defer env.In("codes", reverse)()
+	env.Case()
+	ws := codeWrappers()
+	if reverse {
+		for i, j := 0, len(ws)-1; i < j; i, j = i+1, j-1 {
+			ws[i], ws[j] = ws[j], ws[i]
+		}
+	}
+	exLen, exUp, exSub := c14Expr(env, "%x.length()"), c14Expr(env, "%x.upper()"), c14Expr(env, "%x.substring(1, 3) & '|' & %x.toChars().count().toString() & '|' & %x.indexOf('-').toString()")
+	if exLen == nil || exUp == nil || exSub == nil {
+		env.Skip("code-probe-does-not-compile")
+		return
+	}
+	for wi, md := range ws {
+		vf := md.Fields().ByName("value")
+		vals := vf.Enum().Values()
+		for i := 0; i < vals.Len(); i++ {
+			ev := vals.Get(i)
+			if ev.Number() == 0 || (env.Quick() && (wi+i)%3 != 0 && ev.Number() > 6) {
+				continue
+			}
+			want := gen.OriginalCode(ev)
+			m := gen.NewMessage(md)
+			m.Set(vf, protoreflect.ValueOfEnum(ev.Number()))
+			xo := evalopts.EnvVariable("x", m.Interface())
+			d := fmt.Sprintf("%s value %s", md.FullName(), ev.Name())
+			env.Cover("code-receiver")
+			rs := []rune(want)
+			sub := ""
+			if len(rs) > 1 {
+				sub = string(rs[1:minInt(len(rs), 4)])
+			}
+			for k, c := range []struct {
+				ex   *fhirpath.Expression
+				want fx.Item
+			}{{exLen, fx.Item{K: "Integer", T: fmt.Sprint(len(rs))}}, {exUp, fx.Item{K: "String", T: strings.ToUpper(want)}}, {exSub, fx.Item{K: "String", T: fmt.Sprintf("%s|%d|%d", sub, len(rs), runeIndex(want, "-"))}}} {
+				r := fx.Evaluate(env, c.ex, nil, xo)
+				if r.IsPanic() {
+					env.Violatef(fx.PanicSig("C14", r), "%s: `%s` => %s", d, c.ex.String(), r.Short())
+					continue
+				}
+				if !r.IsValue() || (k == 2 && len(rs) <= 1) {
+					continue // refusing the receiver is decided by the carrier sweep; substring past the end yields empty
+				}
+				if it, ok := r.Single(); !ok || it != c.want {
+					env.Violatef("C14/code-receiver/wrong", "%s (code %q): `%s` => %s, expected %s", d, want, c.ex.String(), trunc(r.Short(), 80), c.want)
+				}
+			}
+			env.Distinct("code|" + string(md.FullName()) + "|" + string(ev.Name()))
+		}
+	}
+}
+
 func runC14(env *core.Env) {
+	if env.Shard == 6%env.NShards {
+		c14Codes(env, false)
+	}
+	if env.Shard == 7%env.NShards {
+		c14Codes(env, true)
+	}
 	strs := c14Strings(env)
 	rng := env.Rng("args")
 	for idx, s := range strs {
@@ -332,7 +410,7 @@ func runC14(env *core.Env) {
 		if !env.Mine(idx) {
 			continue
 		}
-		carrier := []string{"sys", "sys", "fhir", "lit"}[sub.Intn(4)]
+		carrier := []string{"sys", "sys", "fhir", "lit", "litesc"}[sub.Intn(5)]
 		rs := []rune(s)
 		n := int64(len(rs))
 		for _, fn := range []string{"length", "toChars", "upper", "lower", "law-chars"} {
